@@ -348,7 +348,7 @@ func InstantiateSeeded(asserts []*Term, rounds int, capPerQuant int, seedRoots i
 						}
 						var gs []*Term
 						src := ic.byArr[pt.Args[0]]
-						if pt.Args[1] == bv {
+						if pt.Args[1] == bv && q.Name != "exact" {
 							// pattern select(A, k): the array A may be reached through merged or
 							// stored heap versions, so every index read from an array of A's sort
 							// is a candidate (instances are cheap: k := index)
